@@ -21,6 +21,18 @@ def _ops(spec, modes):
     return tuple(sr.FermionicOperator(modes[m], sym == "+") for m, sym in spec)
 
 
+def _pyc(c):
+    """Coefficient of a term: an int, or [re, im] for a complex one."""
+    if isinstance(c, (list, tuple)):
+        return complex(c[0], c[1]) if c[1] else c[0]
+    return c
+
+
+def _serc(c):
+    z = complex(_pyc(c))
+    return [int(round(z.real)), int(round(z.imag))]
+
+
 def _ser_ops(spec, rank):
     return [{"m": rank[m], "cr": sym == "+"} for m, sym in spec]
 
@@ -36,9 +48,9 @@ def run(prog, rec):
     ses = Session(rec, prog["tid"], {}, {})
 
     def build(terms):
-        py_terms = tuple((c, _ops(ops, modes)) for c, ops in terms)
+        py_terms = tuple((_pyc(c), _ops(ops, modes)) for c, ops in terms)
         py_bases = tuple(tuple(_ops(st, modes) for st in basis) for basis in prog["bases"])
-        s_terms = [{"c": [int(c), 0], "ops": _ser_ops(ops, rank)} for c, ops in terms]
+        s_terms = [{"c": _serc(c), "ops": _ser_ops(ops, rank)} for c, ops in terms]
         s_bases = [[_ser_ops(st, rank) for st in basis] for basis in prog["bases"]]
         return py_terms, py_bases, s_terms, s_bases
 
@@ -46,7 +58,7 @@ def run(prog, rec):
     # (i) the element dictionary
     try:
         el = build_local_fermionic_elements(py_terms, py_bases)
-        entries = [{"k": [int(i) for i in idx], "v": [int(round(v)), 0]} for idx, v in el.items()]
+        entries = [{"k": [int(i) for i in idx], "v": _serc(v)} for idx, v in el.items()]
         outcome = "ok"
     except Exception:  # noqa
         entries, outcome = [], "raise"
@@ -78,7 +90,7 @@ def run(prog, rec):
         pt2, _, st2, _ = build(prog["terms2"])
         G2 = make_array(pt2, dict(args, terms=st2), "G2")
         # the product operator: concatenated strings, multiplied coefficients
-        prod = [[c1 * c2, list(o1) + list(o2)] for c1, o1 in prog["terms"] for c2, o2 in prog["terms2"]]
+        prod = [[_serc(_pyc(c1) * _pyc(c2)), list(o1) + list(o2)] for c1, o1 in prog["terms"] for c2, o2 in prog["terms2"]]
         ptp, _, stp, _ = build(prod)
         G12 = make_array(ptp, dict(args, terms=stp), "G12")
     if not prog.get("apply") or G is None:
